@@ -29,7 +29,9 @@ Record world := {
   w_ai_consistent : bool;     (* llm.setup_*_llm_client: key and endpoint both set or both unset *)
   w_output : bool;            (* --output given *)
   w_write_ok : bool;          (* open(output, "w") and the write succeed *)
-  w_write_partial : bool      (* when they do not: open() succeeded and a truncated file stays behind (disk full ...) *)
+  w_write_partial : bool;     (* when they do not: open() succeeded and a truncated file stays behind (disk full ...) *)
+  w_unreadable_target : bool  (* the target tree holds a file without the owner-read permission bit AND a selected codemod is
+                                 semgrep-detected, so that the file is handed to `semgrep scan` as an explicit target *)
 }.
 
 (** what is at the --output path afterwards *)
@@ -47,7 +49,8 @@ Record exit_tables := {
   t_write_used : bool;          (* the value of write_report reaches a return *)
   t_argparse_code : Z;          (* ArgumentParser.error: sys.exit(code) *)
   t_groups : list result_group; (* result-file lists that go through the existence loop *)
-  t_workers_validated : bool    (* --max-workers has a type that rejects values <= 0 *)
+  t_workers_validated : bool;   (* --max-workers has a type that rejects values <= 0 *)
+  t_semgrep_filtered : bool     (* semgrep.run hands semgrep only the targets it accepts (unreadable files are skipped) *)
 }.
 
 Definition guard_eqb (a b : guard_id) : bool :=
@@ -102,6 +105,8 @@ Definition run_body (T : exit_tables) (w : world) : outcome :=
       if existsb (fun g => group_missing w g && group_consumed g && negb (existsb (group_eqb g) (t_groups T))) all_groups then Crash else
       if negb (w_ai_consistent w) then on_guard chain GAIMisconfigured else
       (* apply_codemods: int("x") in the line filter, ThreadPoolExecutor(max_workers <= 0) *)
+      (* find_semgrep_results: semgrep exits 2 on an explicit target it cannot read, run() raises CalledProcessError *)
+      if w_unreadable_target w && negb (t_semgrep_filtered T) then Crash else
       if w_bad_line w || w_bad_workers w then Crash else
       if w_output w then
         if w_write_ok w then Exit 0 RFull
@@ -116,7 +121,9 @@ Definition run_body (T : exit_tables) (w : world) : outcome :=
     undecodable files, a deep tree ...) is NOT an oracle of the chain: no guard and no modelled operation consults it.
     The shape is therefore a parameter that [run_exit_in] ignores; the correspondence run varies it for real
     (harness/c20.py TREE_SHAPES) and measures that status and report do not depend on it.  One coupling exists and is
-    part of the meaning of [w_bad_line]: the non-integer `path:line` item must match a processed file to raise. *)
+    part of the meaning of [w_bad_line]: the non-integer `path:line` item must match a processed file to raise.
+    One thing in the tree IS an oracle (found by varying the shape): a file that lacks the owner-read bit, when a
+    semgrep-detected codemod is selected — the world field [w_unreadable_target]. *)
 Inductive tree_shape :=
 | OneFile | EmptyDir | DirsOnly | NonPythonOnly | ExcludedOnly | SymlinkOnly | DanglingSymlink | UnreadableFiles | DeepTree | ManyFiles.
 
